@@ -1,6 +1,8 @@
 package vh
 
 import (
+	"io"
+	"log/slog"
 	"os"
 	"time"
 
@@ -20,6 +22,7 @@ func InitConfig(job string, mutate func(c *config.Config)) *config.Config {
 // InitConfigOnly is InitConfig without initialising the stats package (controler.Start does that itself).
 func InitConfigOnly(job string, mutate func(c *config.Config)) *config.Config {
 	os.Setenv("HOME", os.TempDir()) // no user config file
+	slog.SetDefault(slog.New(slog.NewTextHandler(io.Discard, nil)))
 	if err := config.InitConfig(); err != nil {
 		panic(err)
 	}
